@@ -214,7 +214,7 @@ def tick_election(ctx, role, readonly):
     if ctx.decide(started, 'election-started'):
         ctx.prove(And(Eq(vf1, NodeId(so.U)), Or(r1 == CAND, r1 == LEADER)), 'C03+C07:A4.candidate-state')
         ctx.prove(Implies(r1 == CAND, so.get('votesCount') == 1), 'C03+C07:A4.votes-reset-to-self-vote')
-        ctx.prove(Implies(r1 == LEADER, majority(1, nv)), 'C03:R3.leader-at-once-only-with-majority-of-one')
+        ctx.prove(Implies(r1 == LEADER, majority(1, nv)), 'C03+C01+C04:R3.leader-at-once-only-with-majority-of-one')
         voters = old.get('otherNodes').bits
         for i in range(so.U):
             n_i = sum(1 for to, m in rv if to.idx == i)
